@@ -1488,6 +1488,8 @@ func runC11(r *Rng, tier string, n int) {
 	runSessions(r, tier)
 	// (2c) section counts at and around the octet carries of the header fields (counts.go)
 	runCounts(r, tier, single, multi)
+	// (2d) the fudge window over the whole 48-bit / 64-bit range of its operands (window.go)
+	runWindow(r, tier, single, multi)
 	// (3) model cases
 	boundaryCases(r, single)
 	boundaryCases(r, multi)
